@@ -130,15 +130,23 @@ daglish.register_node_traverser(
 )
 
 
+_tmpprim_serial = __import__('itertools').count(1000)
+
+
 class TmpPrim:
   """User node type whose flatten creates fresh *primitive* temporaries."""
 
   def __init__(self, a=None):
     self.a = a
+    self.k = next(_tmpprim_serial)
 
   @property
-  def bang(self):
-    return '%8r!' % (self.a,)      # a new str object on every access
+  def ibang(self):
+    return self.k * 3 + 1           # a new int object on every access
+
+  @property
+  def sbang(self):
+    return '%8r!%06d' % (self.a, self.k)   # a new str object on every access
 
   def __canon__(self):
     return (self.a,)
@@ -147,12 +155,18 @@ class TmpPrim:
     return f'TmpPrim({self.a!r})'
 
 
+def _tmpprim_unflatten(values, t):
+  values = list(values)
+  if values == [t.ibang, t.sbang]:
+    return TmpPrim(t.a)
+  return TmpPrim(('CORRUPT', t.a, values))
+
+
 daglish.register_node_traverser(
     TmpPrim,
-    flatten_fn=lambda t: ((t.bang,), t.a),
-    unflatten_fn=lambda values, a: TmpPrim(
-        a if list(values) == ['%8r!' % (a,)] else ('CORRUPT', a)),
-    path_elements_fn=lambda t: (daglish.Attr('bang'),),
+    flatten_fn=lambda t: ((t.ibang, t.sbang), t),
+    unflatten_fn=_tmpprim_unflatten,
+    path_elements_fn=lambda t: (daglish.Attr('ibang'), daglish.Attr('sbang')),
 )
 
 
